@@ -1120,7 +1120,7 @@ fn judge(p: &Program, e: &RelationalEngine, tx: &[u64], mut recs: Vec<Rec>, self
         } else {
             "committed-write-lost"
         };
-        return (outcome, Some(format!("c09:conc:{symptom}|final table {table:?}; committed work explains only {expected:?}; results: {res_text}")));
+        return (outcome, Some(format!("c09:conc:final-table:{symptom}|final table {table:?}; committed work explains only {expected:?}; results: {res_text}")));
     }
     // (4) locks gone, indexed reads agree with the table, finished transactions refused
     let tm = e.tx_manager();
@@ -1302,7 +1302,7 @@ fn replay(path: &str, rep: &mut Report, selftest: bool) {
         } else {
             check(&res).violation
         };
-        if let Some(m) = res.machinery {
+        if let Some(m) = res.machinery.clone() {
             rep.machinery(m);
         }
         if let Some(v) = verdict {
@@ -1322,12 +1322,40 @@ fn replay(path: &str, rep: &mut Report, selftest: bool) {
     }
 }
 
+
+/// standalone reproductions of the findings on the unchanged tree (prints what the engine does)
+fn repro() {
+    println!("-- R1: a row inserted by an open transaction is not locked");
+    let e = setup(0, 2);
+    let (a, b) = (e.begin_transaction(), e.begin_transaction());
+    println!("table before: {:?}", raw(&e).unwrap());
+    println!("tx_a.tx_insert(h=1,o=3) -> {:?}", e.tx_insert(a, T, vals(1, 3)));
+    println!("tx_b.tx_delete(o>=2)    -> {:?}   (row 3 belongs to the open tx_a: LockConflict expected)", e.tx_delete(b, T, Cx::OGe(2).cond()));
+    println!("rollback(tx_a) -> {:?}", e.rollback(a));
+    println!("rollback(tx_b) -> {:?}", e.rollback(b));
+    println!("table after both rollbacks: {:?}   (row 3 never existed outside rolled-back transactions)", raw(&e).unwrap());
+    println!("select(h = 1) -> ids {:?}", e.select(T, Cx::H(1).cond()).unwrap().iter().map(|r| r.id).collect::<Vec<_>>());
+    println!("-- R2: committed update of such a row disappears");
+    let e = setup(0, 2);
+    let (a, b) = (e.begin_transaction(), e.begin_transaction());
+    println!("tx_a.tx_insert(h=1,o=3) -> {:?}", e.tx_insert(a, T, vals(1, 3)));
+    println!("tx_b.tx_update(_id=3 SET o:=4) -> {:?}", e.tx_update(b, T, Cx::Id(3).cond(), Set::O(4).map()));
+    println!("commit(tx_b) -> {:?}", e.commit(b));
+    println!("rollback(tx_a) -> {:?}", e.rollback(a));
+    println!("table: {:?}", raw(&e).unwrap());
+    println!("-- R3: tx_update reads the row before it locks it (needs the scheduler): run the replay files of c09:conc:final-table:*");
+}
+
 fn main() {
     env::require();
     env::clock_freeze(1_700_000_000);
     let args = nvc::Args::parse();
     let selftest = std::env::args().any(|a| a == "--selftest");
     let only = args.flag("only");
+    if std::env::args().any(|a| a == "--repro") {
+        repro();
+        return;
+    }
     if let Some((i, n)) = args.worker {
         worker(i, n, args.thorough(), selftest, only.as_deref());
         return;
